@@ -163,8 +163,12 @@ Definition known_repeat_continue (b : block) : bool := s_block no_expr k2_stmt b
 (** K10 (DESIGN 11 #10): [math.sqrt(x)] -> [x ^ 0.5] differs on -0 and -inf. *)
 Definition k10_expr (_ : bool) (e : expr) : bool :=
   match e with
-  | ECall (EField (EIdent m) f) None (ATuple [_]) =>
-    bytes_eqb m (of_string "math") && bytes_eqb f (of_string "sqrt")
+  | ECall (EField (EIdent m) f) None (ATuple [a]) =>
+    bytes_eqb m (of_string "math") && bytes_eqb f (of_string "sqrt") &&
+    match evaluate a with
+    | LNumber x => sign_of x && (is_zero x || is_inf x)     (* statically -0 or -inf *)
+    | _ => false
+    end
   | _ => false
   end.
 Definition known_sqrt_call (b : block) : bool := s_block k10_expr no_stmt b.
